@@ -111,7 +111,8 @@ Definition encode_header (h : header) (t : msg_type) (content_len : Z) : bytes :
 (** * Bodies *)
 Definition body_size (b : body) : Z :=
   match b with
-  | BSync _ | BDelayReq _ | BPDelayReq _ | BFollowUp _ | BSignaling _ => 10
+  | BSync _ | BDelayReq _ | BFollowUp _ | BSignaling _ => 10
+  | BPDelayReq _      (* originTimestamp + 10 reserved octets (p_delay_req.rs: content_size 20) *)
   | BPDelayResp _ _ | BDelayResp _ _ | BPDelayRespFollowUp _ _ => 20
   | BAnnounce _ => 30
   | BManagement _ _ _ _ => 14
@@ -122,7 +123,7 @@ Definition decode_body (t : msg_type) (c : bytes) : res body :=
   match t with
   | MTSync => need 10 (ROk (BSync (dec_ts c)))
   | MTDelayReq => need 10 (ROk (BDelayReq (dec_ts c)))
-  | MTPDelayReq => need 10 (ROk (BPDelayReq (dec_ts c)))
+  | MTPDelayReq => need 20 (ROk (BPDelayReq (dec_ts c)))
   | MTFollowUp => need 10 (ROk (BFollowUp (dec_ts c)))
   | MTPDelayResp => need 20 (ROk (BPDelayResp (dec_ts c) (dec_pi (slice 10 10 c))))
   | MTDelayResp => need 20 (ROk (BDelayResp (dec_ts c) (dec_pi (slice 10 10 c))))
@@ -146,7 +147,8 @@ Definition decode_body (t : msg_type) (c : bytes) : res body :=
 (** bytes never written by the serializer are left as in the zeroed buffer *)
 Definition encode_body (b : body) : bytes :=
   match b with
-  | BSync t | BDelayReq t | BPDelayReq t | BFollowUp t => enc_ts t
+  | BSync t | BDelayReq t | BFollowUp t => enc_ts t
+  | BPDelayReq t => enc_ts t ++ [0; 0; 0; 0; 0; 0; 0; 0; 0; 0]   (* buffer[10..20].fill(0) *)
   | BPDelayResp t p | BDelayResp t p | BPDelayRespFollowUp t p => enc_ts t ++ enc_pi p
   | BAnnounce a =>
       enc_ts (an_origin a) ++ be_encode 2 (an_utc_offset a) ++ [0; an_prio1 a]
